@@ -100,6 +100,23 @@ func genC05(r *Rng, n int, tier string, emit func(Case)) {
 				what += "&attributes(" + sp + ") "
 			}
 		}
+		// the same attributes given to a MIXIN CALL whose body spreads `attributes` on its tag: `+m.primary.large(title=t)`. Only when
+		// every attribute is escaped and there is no extra spread (then the two forms are the same tag).
+		allEsc := tag["ablocks"] == nil || len(asList(tag["ablocks"])) == 0
+		for _, a := range attrs {
+			if esc, _ := asJ(a)["esc"].(bool); !esc {
+				allEsc = false
+			}
+		}
+		if allEsc && len(attrs) > 0 && rr.Chance(1, 4) {
+			name := tag["name"].(string)
+			inner := nTag(name, false, nil, nText("body"))
+			inner["ablocks"] = []interface{}{"attributes"}
+			doc := []interface{}{nMixin("m", nil, inner), nCall("m", nil, attrs)}
+			emit(Case{"kind": "render", "oracle": "attrs", "doc": doc, "spec_doc": []interface{}{tag}, "data": data, "bucket": "mixin-call", "nattrs": len(attrs),
+				"what": "mixin call: " + what})
+			continue
+		}
 		emit(Case{"kind": "render", "oracle": "attrs", "doc": []interface{}{tag}, "data": data, "bucket": "tag", "nattrs": len(attrs), "what": what})
 	}
 }
